@@ -84,24 +84,25 @@ Definition op_extracted : opfun := fun zs qs =>
   | [ub; m], eps :: nd :: n32 :: q => let m := nat_of m in
       Ok (lmat (m - 1) (m - 1) (extracted_of Qc_OF (negb (ub =? 0)%Z) m eps nd n32 (vecl q)))
   | _, _ => Err (-1) end.
-(* zs = [unbiased; m; fixed]; qs = eps :: nd :: n32 :: q(m) ++ inv((m-1)^2)
-   -> Err 2 when inv is not the exact two-sided inverse (certificate), Err 1 when the placement raises, else W (m*m) *)
+(* zs = [unbiased; m]; qs = eps :: nd :: n32 :: q(m) ++ inv((m-1)^2)
+   -> Err 2 when inv is not the exact two-sided inverse (certificate), Err 1 when the placement raises (never, by
+      C12_inverse_covariance_all_outcome_counts), else W (m*m) *)
 Definition op_inv_weight : opfun := fun zs qs =>
   match zs, qs with
-  | [ub; m; fx], eps :: nd :: n32 :: r => let m := nat_of m in
+  | [ub; m], eps :: nd :: n32 :: r => let m := nat_of m in
       let '(q, r) := seg m r in
       let M := freeze Q0 (m - 1) (m - 1) (extracted_of Qc_OF (negb (ub =? 0)%Z) m eps nd n32 (vecl q)) in
       let inv := matl (m - 1) (m - 1) r in
       if negb (is_inverse_b Qc_OF (m - 1) M inv) then Err 2 else
-      match (if (fx =? 0)%Z then place_inv Qc_OF m inv else place_inv_fixed Qc_OF m inv) with
+      match place_inv Qc_OF m inv with
       | Some W => Ok (lmat m m W)
       | None => Err 1
       end
   | _, _ => Err (-1) end.
 
-(* ---- configuration sequences.  zs = kind :: ns :: m :: steps, every step = [mode; has_custom; has_computed]
-        (kind 0 generic, 1 fast as coded, 2 fast with the proposed fix; mode 0 identity, 1 custom, 2 inverse sample,
-        3 inverse unbiased, 4 the accepted alias "unbiased_inverse_covariance");
+(* ---- configuration histories (the repaired code).  zs = kind :: ns :: m :: steps, every step = [mode; has_custom; has_computed]
+        (kind 0 generic class, 1 fast class; mode 0 identity, 1 custom, 2 inverse sample, 3 inverse unbiased,
+        4 the accepted alias "unbiased_inverse_covariance", 5 direct set_weight_matrices(custom) on the object);
         qs = per step [custom (ns*m*m)] ++ [computed (ns*m*m)].
         -> Err k when step k (1-based) raises; else has_w :: [W] ++ has_ext :: [E] *)
 Definition mode_of (z : Z) : wmode :=
@@ -115,14 +116,10 @@ Fixpoint run_steps (kind : Z) (ns m : nat) (k : Z) (steps : list Z) (qs : list Q
       let '(cmp, r) := if (hk =? 0)%Z then ([], r) else seg sz r in
       let custom : @wts Qc_OF := if (hc =? 0)%Z then None else Some (wtsl ns m c) in
       let computed := if (hk =? 0)%Z then None else Some (wtsl ns m cmp) in
-      let nxt := if (md =? 5)%Z then    (* direct set_weight_matrices(custom) on the configured object *)
-                   COk (if (kind =? 2)%Z then set_direct_fast_fixed m custom st
-                        else if (kind =? 1)%Z then set_direct_fast custom st else {| f_w := custom; f_ext := None |})
-                 else if (kind =? 0)%Z then
-                   match config_generic (mode_of md) custom computed (f_w st) with
-                   | COk w => COk {| f_w := w; f_ext := None |} | CErr => CErr end
-                 else if (kind =? 1)%Z then config_fast m (mode_of md) custom computed st
-                 else config_fast_fixed m (mode_of md) custom computed st in
+      let s : @cstep Qc_OF := if (md =? 5)%Z then SSet custom else SConfig (mode_of md) custom computed in
+      let nxt := if (kind =? 0)%Z then
+                   match step_generic s (f_w st) with COk w => COk {| f_w := w; f_ext := None |} | CErr => CErr end
+                 else step_fast m s st in
       match nxt with
       | COk st' => run_steps kind ns m (k + 1)%Z rest r st'
       | CErr => Err k
@@ -132,12 +129,7 @@ Fixpoint run_steps (kind : Z) (ns m : nat) (k : Z) (steps : list Z) (qs : list Q
       Ok ((match f_w st with Some w => qz 1 :: flat_wts ns m w | None => [qz 0] end)
           ++ (match f_ext st with Some e => qz 1 :: lmat N N e | None => [qz 0] end))
   end.
-Definition op_config : opfun := fun zs qs =>
-  match zs with
-  | kind :: ns :: m :: steps => run_steps kind (nat_of ns) (nat_of m) 1%Z steps qs fresh
-  | _ => Err (-1) end.
-
-(* the same starting from a given object state: zs = kind :: ns :: m :: has_w0 :: has_e0 :: steps;
+(* from a given object state: zs = kind :: ns :: m :: has_w0 :: has_e0 :: steps;
    qs = [W0 (ns*m*m)] ++ [E0 (N*N)] ++ step data *)
 Definition op_config_from : opfun := fun zs qs =>
   match zs with
@@ -150,28 +142,22 @@ Definition op_config_from : opfun := fun zs qs =>
       run_steps kind ns m 1%Z steps r st0
   | _ => Err (-1) end.
 
-(* fast relative-entropy object: zs = ns :: m :: steps, every step = [op; has_w] (op 0: constructor weights,
-   1: set_from_standard_qtomography_option_data with option weights, 2: set_weights); qs = per step [w(ns)].
+(* fast relative-entropy object (the repaired code): zs = ns :: m :: has_w0 :: has_ew0 :: steps, every step = [op; custom_mode; has_w]
+   (op 1: set_from_standard_qtomography_option_data with the option's mode / weights, 2: set_weights on the configured
+   object); qs = [w0(ns)] ++ [ew0(N)] ++ per step [w(ns)].
    -> has_w :: [w] ++ sel :: [ew(N)]   with sel 0: value() uses no weights, 1: uses ew, 2: value() raises AttributeError *)
 Fixpoint run_re_steps (ns m : nat) (steps : list Z) (qs : list Qc) (st : @rstate Qc_OF) : res :=
   match steps with
-  | op :: hw :: rest =>
+  | op :: cm :: hw :: rest =>
       let '(w, r) := if (hw =? 0)%Z then ([], qs) else seg ns qs in
       let wo : option qvec := if (hw =? 0)%Z then None else Some (vec_of_list 0%Qc w) in
-      let st' := if (op =? 0)%Z then {| r_w := wo; r_ew := None |}
-                 else if (op =? 1)%Z then config_re_fast m wo st else set_weights_re_fast wo st in
-      run_re_steps ns m rest r st'
+      let s : @rstep Qc_OF := if (op =? 1)%Z then RConfig (negb (cm =? 0)%Z) wo else RSet wo in
+      run_re_steps ns m rest r (step_re_fast m s st)
   | _ =>
       let N := (ns * m)%nat in
       Ok ((match r_w st with Some w => qz 1 :: list_of_vec ns w | None => [qz 0] end)
           ++ (match re_fast_sel st with COk None => [qz 0] | COk (Some e) => qz 1 :: list_of_vec N e | CErr => [qz 2] end))
   end.
-Definition op_config_re : opfun := fun zs qs =>
-  match zs with
-  | ns :: m :: steps => run_re_steps (nat_of ns) (nat_of m) steps qs {| r_w := None; r_ew := None |}
-  | _ => Err (-1) end.
-
-(* from a given state: zs = ns :: m :: has_w0 :: has_ew0 :: steps; qs = [w0(ns)] ++ [ew0(N)] ++ step data *)
 Definition op_config_re_from : opfun := fun zs qs =>
   match zs with
   | ns :: m :: hw0 :: he0 :: steps =>
@@ -250,7 +236,6 @@ Definition C12_ops : optable :=
   [ ("c12.se_at"%string, op_se_at); ("c12.se"%string, op_se); ("c12.se_fast"%string, op_se_fast);
     ("c12.ext_of"%string, op_ext_of); ("c12.replace_prob_dist"%string, op_replace_prob_dist);
     ("c12.cov"%string, op_cov); ("c12.extracted"%string, op_extracted); ("c12.inv_weight"%string, op_inv_weight);
-    ("c12.config"%string, op_config); ("c12.config_re"%string, op_config_re);
     ("c12.config_from"%string, op_config_from); ("c12.config_re_from"%string, op_config_re_from); ("c12.re_at"%string, op_re_at); ("c12.re"%string, op_re);
     ("c12.re_fast"%string, op_re_fast); ("c12.ew_of"%string, op_ew_of); ("c12.round_varz"%string, op_round_varz);
     ("c12.sq"%string, op_sq) ].
